@@ -39,6 +39,7 @@ D == 2
 W == 7 % P
 F == 0..(P - 1)
 Small == {0, 1, P - 1}
+Tiny == {1, P - 1}
 
 \* ---------------------------------------------------------------- field
 Add(a, b) == (a + b) % P
@@ -78,7 +79,8 @@ XW(r, s) == <<r[s + 1], r[s + 2]>>                     \* extension element on w
 RC(rd, i) == (rd * rd + 3 * i + 2) % P                 \* round constant of round rd, lane i
 CIRC(i) == (i * i + i + 1) % P
 DIAG(i) == (i + 2) % P
-Sbox(x) == Pow(x, ALPHA)
+SboxTab == MapN(LAMBDA x : Pow(x - 1, ALPHA), P)       \* constant table (evaluated once)
+Sbox(x) == SboxTab[x + 1]
 \* row i (0-based) of the linear layer applied to the concrete state st (1-based tuple, width w)
 MdsRow(st, w, i) ==
   LET S[k \in 0..w] == IF k = w THEN 0 ELSE (CIRC(k) * st[((k + i) % w) + 1] + S[k + 1]) % P
@@ -88,14 +90,23 @@ AddRC(st, w, rd) == MapN(LAMBDA i : (st[i] + RC(rd, i - 1)) % P, w)
 SboxAll(st, w) == MapN(LAMBDA i : Sbox(st[i]), w)
 
 \* ---------------------------------------------------------------- coset interpolation parameters
+RECURSIVE TwoAdicity(_)
+TwoAdicity(n) == IF n % 2 = 1 THEN 0 ELSE 1 + TwoAdicity(n \div 2)
+MaxBits == TwoAdicity(P - 1)
 SubgroupGen(bits) == Pow(GEN, (P - 1) \div IPow(2, bits))
-DomPt(bits, i) == Pow(SubgroupGen(bits), i)            \* i-th point (0-based) of two_adic_subgroup
-BaryW(bits, i) ==
+DomPtDef(bits, i) == Pow(SubgroupGen(bits), i)         \* i-th point (0-based) of two_adic_subgroup
+BaryWDef(bits, i) ==
   LET n == IPow(2, bits)
       Pr[j \in 0..n] == IF j = n THEN 1
                         ELSE IF j = i THEN Pr[j + 1]
-                        ELSE (Sub(DomPt(bits, i), DomPt(bits, j)) * Pr[j + 1]) % P
+                        ELSE (Sub(DomPtDef(bits, i), DomPtDef(bits, j)) * Pr[j + 1]) % P
   IN Inv(Pr[0])
+\* constant tables (concrete tuples, evaluated once): [bits][i + 1]
+DomTab == MapN(LAMBDA b : MapN(LAMBDA i : DomPtDef(b, i - 1), IPow(2, b)), MaxBits)
+BaryTab == MapN(LAMBDA b : MapN(LAMBDA i : BaryWDef(b, i - 1), IPow(2, b)), MaxBits)
+InvTab == MapN(LAMBDA x : Inv(x), P - 1)
+DomPt(bits, i) == DomTab[bits][i + 1]
+BaryW(bits, i) == BaryTab[bits][i + 1]
 \* with_max_degree: degree actually used for a requested bound
 CosetNumInter(bits, deg) == (IPow(2, bits) - 2) \div (deg - 1)
 CosetDegreeFor(bits, maxdeg) ==
@@ -329,7 +340,7 @@ StepVals(g, c, acc, k) ==
     [] g.kind = "lookup" -> <<LutTwin(Wr(acc, 2 * (k - 1)))>>
     [] g.kind = "lookuptable" -> <<(k - 1) % P, LutTwin((k - 1) % P)>>
     [] g.kind = "coset" ->
-         IF k = 1 THEN EScal(Inv(Wr(acc, 0)), XW(acc, CoPoint(g)))
+         IF k = 1 THEN EScal(InvTab[Wr(acc, 0)], XW(acc, CoPoint(g)))
          ELSE Let(CosetChunk(g, acc, XW(acc, CoShifted(g)), CosetStart(g, acc, k - 2), k - 2),
                   LAMBDA ep : IF k = CoNI(g) + 2 THEN ep[1] ELSE ep[1] \o ep[2])
     [] g.kind = "poseidon" ->
